@@ -73,12 +73,13 @@ def run_case(idx, rng, tier, res):
         res.count(k, v)
     imported_parent = g.stats.get('parent_imported', 0) + g.stats.get('trap_enterprise_imported', 0)
     res.nontrivial = imported_parent >= 1 and g.stats.get('forward_parent_refs', 0) >= 1
-    replay = {'texts': texts, 'requested': names}
+    gt = rng.random() < 0.3
+    replay = {'texts': texts, 'requested': names, 'genTexts': gt}
 
     outs = {}
     for backend in ('json', 'pysnmp'):
         try:
-            results, written = pipeline.compile_set(texts, names, codegen=backend)
+            results, written = pipeline.compile_set(texts, names, codegen=backend, genTexts=gt)
         except Exception as exc:
             res.violation('compile_raised', '%s backend: %r' % (backend, exc), replay=replay,
                           backend=backend)
